@@ -43,6 +43,12 @@ pub fn run(ctx: &mut Ctx, reg: &Registry) {
                     continue;
                 }
                 ctx.count(&format!("files:{}", c.name()));
+                ctx.sample(&format!("truncated-file:{}", c.name()), {
+                    let mut j = case_json(&s.label, e.def, ver, v, Some(&file));
+                    j.push("container", J::s(c.name()));
+                    j.push("cuts_tried", J::s(format!("every offset 0..{}", file.len())));
+                    j
+                });
                 truncations(ctx, s, v, &expected, &file, c, 0..file.len());
                 ctx.count("files_exhaustively_truncated");
             }
